@@ -31,6 +31,12 @@ def _norm_key(s):
     return s
 
 
+def _x(arg):
+    """the expression of an argument in canonical form (constants folded, immutable lets substituted, casts and
+    borrows dropped: driver `nx`), else its source text"""
+    return arg.get("nx") or arg.get("snip", "")
+
+
 def _bytes_len(arg, node):
     """length of a byte-slice argument: int when the type says so, else a variable key"""
     for ty in (arg.get("ty0", ""), arg.get("ty", "")):
@@ -48,7 +54,7 @@ def _bytes_len(arg, node):
     m = re.search(r"\[\.\.(.+)\]$", re.sub(r"\s+", "", snip))
     if m:
         return "var:" + _norm_key(m.group(1))
-    return "var:" + _norm_key(snip)
+    return "var:" + _norm_key(_x(arg))
 
 
 class Lay:
@@ -123,9 +129,9 @@ class Lay:
             if name in W_FIXED:
                 return {((("u", W_FIXED[name]),), None)}
             if name == "write_usized":
-                return {((("usized", "var:" + _norm_key(args[1].get("snip"))),), None)}
+                return {((("usized", "var:" + _norm_key(_x(args[1]))),), None)}
             if name == "write_isized":
-                return {((("isized", "var:" + _norm_key(args[1].get("snip"))),), None)}
+                return {((("isized", "var:" + _norm_key(_x(args[1]))),), None)}
             if name == "write_data":
                 return {((("bytes", _bytes_len(args[0], n)),), None)}
             if name in ("new", "close", "len"):
@@ -137,16 +143,16 @@ class Lay:
             if name in R_FIXED:
                 return {((("i" if name.startswith("read_i") else "u", R_FIXED[name]),), None)}
             if name == "read_usized":
-                return {((("usized", "var:" + _norm_key(a[0].get("snip"))),), None)}
+                return {((("usized", "var:" + _norm_key(_x(a[0]))),), None)}
             if name == "read_isized":
-                return {((("isized", "var:" + _norm_key(a[0].get("snip"))),), None)}
+                return {((("isized", "var:" + _norm_key(_x(a[0]))),), None)}
             if name == "read_data":
                 return {((("bytes", _bytes_len(a[0], n)),), None)}
             if name in ("read_slice", "skip"):
                 ad = a[0]
                 if "lit" in ad and isinstance(ad["lit"], int):
                     return {((("bytes", ad["lit"]),), None)}
-                return {((("bytes", "var:" + _norm_key(ad.get("snip"))),), None)}
+                return {((("bytes", "var:" + _norm_key(_x(ad))),), None)}
             if name in ("global_offset", "tell", "create_parser"):
                 return {((), None)}
         # ---- Err(..) constructor: this path is an error path
@@ -155,7 +161,7 @@ class Lay:
         # ---- idiom kept opaque: padded pstring
         if name == "serialize_string_padded" and c.get("krate") == "jubako":
             sz = args[1]
-            v = sz.get("lit") if "lit" in sz else "var:" + _norm_key(sz.get("snip"))
+            v = sz.get("lit") if "lit" in sz else "var:" + _norm_key(_x(sz))
             return {((("pstr_padded", v),), None)}
         # ---- local callee: inline
         if "rfn" in c:
@@ -183,7 +189,7 @@ class Lay:
                 if "lit" in a and isinstance(a["lit"], int) and not isinstance(a["lit"], bool):
                     m[p] = str(a["lit"])
                 else:
-                    m[p] = _norm_key(a.get("snip", ""))
+                    m[p] = _norm_key(_x(a))
         gens = F.fns[c["rfn"]].get("generics", [])
         for g, v in zip(gens, c.get("rargs", [])):
             if re.match(r"^\d+$", v):
